@@ -72,6 +72,10 @@ def alphabet(r, base):
     A.append(T.Entry("link", b"a/llll", target=b"d"))                         # 42
     A.append(T.Entry("link", b"p", target=b"a/llll"))                         # 43
     A.append(T.Entry("link", b"p/q/m", target=b"/zz"))                        # 44
+    # every file member records a modification time (a metadata call is one more thing that can land outside)
+    for i, e in enumerate(A):
+        if e.kind == "file" and not e.mtime:
+            e.mtime = 1000000100 + i
     return A
 
 
